@@ -33,3 +33,78 @@ def replay_source_equality(w, rec):
 REPLAYS = {
   'lemma_source_value_equality': replay_source_equality,
 }
+
+
+# --------------------------------------------------------------------------------------------------------------
+def _fresh_receiver():
+  varz.VarzReceiver.VARZ_DATA.clear()
+
+
+def replay_counters(w, rec):
+  """Increment histories (negative amounts, equal-but-distinct sources): every series is the sum of its increments."""
+  bad = []
+  amt = (w.get('params', {}) if isinstance(w, dict) else {}).get('amount')
+  hists = [[1, 1, 1], [-1, 1], [2, -3, 1, 5], [0, -2, -2, 7], [5, -5, -5, 5, 5]]
+  if isinstance(amt, int) and -10**6 < amt < 10**6:
+    hists.append([amt, -amt - 1, 2])
+  for h in hists:
+    _fresh_receiver()
+    for a in h:
+      # a source built afresh for every call: equal by value, never the same object
+      varz.VarzReceiver.IncrementVarz(varz.Source(method='m', service='svc', endpoint='%s:%d' % ('host', 80), client_id=None), 'metric.x', a)
+    data = varz.VarzReceiver.VARZ_DATA['metric.x']
+    total = sum(data.values())
+    if len(data) != 1:
+      bad.append('increments %r from equal sources landed in %d series' % (h, len(data)))
+    if total != sum(h):
+      bad.append('increments %r: series holds %r, the sum is %r' % (h, total, sum(h)))
+    varz.VarzReceiver.SetVarz(varz.Source(method='m', service='svc', endpoint='host:80'), 'gauge.y', 7)
+    varz.VarzReceiver.SetVarz(varz.Source(method='m', service='svc', endpoint='host:80'), 'gauge.y', 3)
+    if list(varz.VarzReceiver.VARZ_DATA['gauge.y'].values()) != [3]:
+      bad.append('gauge set twice holds %r' % (list(varz.VarzReceiver.VARZ_DATA['gauge.y'].values()),))
+  _fresh_receiver()
+  return bool(bad), '\n'.join(bad) or 'every counter series equals the sum of its increments; gauges hold the last value'
+
+
+def replay_percentiles(w, rec):
+  """Aggregated percentile lists are non-decreasing in the percentile and lie within the sample range, for sample
+  sets of every small size and order (bounded: sizes 1..6 per reservoir, 1..3 reservoirs, fixed value pool)."""
+  import itertools
+  bad = []
+  metric = 'lat.t'
+  pool = [5.0, 1.0, 3.0, 9.0, 2.0, 7.0]
+  cases = []
+  for n in range(1, 7):
+    cases.append([pool[:n]])
+    cases.append([sorted(pool[:n])])
+    cases.append([sorted(pool[:n], reverse=True)])
+  cases += [[pool[:2], pool[2:5]], [[5.0, 1.0], [9.0]], [[2.0], [1.0], [3.0, 0.5]], [list(reversed(pool)), pool[:3]]]
+  for reservoirs in cases:
+    _fresh_receiver()
+    varz.VarzReceiver.VARZ_METRICS[metric] = varz.VarzType.AverageTimer
+    for k, samples in enumerate(reservoirs):
+      src = varz.Source(method='m', service='svc', endpoint='h%d:1' % k)
+      for v in samples:
+        varz.VarzReceiver.RecordPercentileSample(src, metric, v)
+    agg = varz.VarzAggregator.Aggregate(varz.VarzReceiver.VARZ_DATA, varz.VarzReceiver.VARZ_METRICS)
+    for key, a in agg[metric].items():
+      pcts = list(a.total[1:])
+      allv = [v for s in reservoirs for v in s]
+      if any(x > y + 1e-9 for x, y in zip(pcts, pcts[1:])):
+        bad.append('samples %r: percentiles %r decrease as the percentile rises' % (reservoirs, pcts))
+      if pcts and len(reservoirs) == 1 and (min(pcts) < min(allv) - 1e-9 or max(pcts) > max(allv) + 1e-9):
+        bad.append('samples %r: percentiles %r leave the sample range' % (reservoirs, pcts))
+    if len(bad) >= 4:
+      break
+  _fresh_receiver()
+  varz.VarzReceiver.VARZ_METRICS.pop(metric, None)
+  return bool(bad), '\n'.join(bad[:4]) or 'percentiles non-decreasing and within range on every case'
+
+
+REPLAYS.update({
+  'lemma_source_distinct': replay_source_equality,
+  'VarzReceiver.IncrementVarz': replay_counters,
+  'VarzReceiver.SetVarz': replay_counters,
+  'VarzAggregator.Aggregate': replay_percentiles,
+  'VarzAggregator.CalculatePercentile': replay_percentiles,
+})
